@@ -45,7 +45,7 @@ def sig_kinds(sig):
 
 
 class Profile:
-    def __init__(self, fmt, mapmagic, regs_i, regs_f, diff, jumps, blocks, exprs, multi, sig_section='!ins_signatures', timeline=False, sigs=None, countjmp='--%s'):
+    def __init__(self, fmt, mapmagic, regs_i, regs_f, diff, jumps, blocks, exprs, multi, sig_section='!ins_signatures', timeline=False, sigs=None, countjmp='--%s', interrupts=False):
         self.fmt = fmt
         self.mapmagic = mapmagic
         self.regs_i = regs_i
@@ -59,17 +59,18 @@ class Profile:
         self.timeline = timeline
         self.sigs = sigs or SIGS
         self.countjmp = countjmp
+        self.interrupts = interrupts
 
 
 PROFILES = {
-    'anm12': Profile('ANM_12', '!anmmap', ['I0', 'I1', 'I2', 'I3'], ['F0', 'F1', 'F2', 'F3'], False, True, True, True, 'script', sigs=SIGS_ANM),
+    'anm12': Profile('ANM_12', '!anmmap', ['I0', 'I1', 'I2', 'I3'], ['F0', 'F1', 'F2', 'F3'], False, True, True, True, 'script', sigs=SIGS_ANM, interrupts=True),
     'anm06': Profile('ANM_06', '!anmmap', [], [], False, True, False, False, 'script', sigs=rebase(SIGS, -600)),
-    'anm16': Profile('ANM_16', '!anmmap', ['I0', 'I1', 'I2', 'I3'], ['F0', 'F1', 'F2', 'F3'], False, True, True, True, 'script', sigs=SIGS_ANM),
+    'anm16': Profile('ANM_16', '!anmmap', ['I0', 'I1', 'I2', 'I3'], ['F0', 'F1', 'F2', 'F3'], False, True, True, True, 'script', sigs=SIGS_ANM, interrupts=True),
     'ecl06': Profile('ECL_06', '!eclmap', ['I0', 'I1', 'I2', 'I3'], ['F0', 'F1', 'F2', 'F3'], True, True, True, True, 'sub', countjmp='--%s > 0'),
     'ecl07': Profile('ECL_07', '!eclmap', ['I0', 'I1', 'I2', 'I3'], ['F0', 'F1', 'F2', 'F3'], True, True, True, True, 'sub', countjmp='--%s > 0'),
     'ecl08': Profile('ECL_08', '!eclmap', ['I0', 'I1', 'I2', 'I3'], ['F0', 'F1', 'F2', 'F3'], True, True, True, True, 'sub', countjmp='--%s > 0'),
-    'std08': Profile('STD_08', '!stdmap', [], [], False, True, False, False, None, sigs=SIGS12),
-    'std12': Profile('STD_12', '!stdmap', [], [], False, True, False, False, None),
+    'std08': Profile('STD_08', '!stdmap', [], [], False, True, False, False, None, sigs=SIGS12, interrupts=True),
+    'std12': Profile('STD_12', '!stdmap', [], [], False, True, False, False, None, interrupts=True),
     'msg06': Profile('MSG_06', '!msgmap', [], [], False, False, False, False, 'msg', sigs=rebase(SIGS_MSG06, -600)),
     'msg12': Profile('MSG_12', '!msgmap', [], [], False, False, False, False, 'msg', sigs=rebase(SIGS_MSG12, -600)),
     'msg09': Profile('MSG_09', '!msgmap', [], [], False, False, False, False, 'msg', sigs=rebase(SIGS_MSG12, -600)),
@@ -192,6 +193,8 @@ class Gen:
         p = self.p
         k = r.random()
         ind = '    ' * (depth + 1)
+        if p.interrupts and r.random() < 0.07:
+            return [ind + 'interrupt[%d]:' % r.choice([1, 2, 3, 7])]
         if k < 0.35:
             return [ind + self.ins()]
         if k < 0.55:
